@@ -61,6 +61,9 @@ def run(ctx):
     r3(ctx, lib)
     r4(ctx, lib)
     r5(ctx, lib)
+    if ctx.tier == 'thorough' and not getattr(ctx, 'sibling', None):
+        from .. import sweep
+        sweep.units(ctx, 'C17.R1')
 
 
 def r1(ctx, lib):
@@ -170,26 +173,36 @@ def r4(ctx, lib):
     s = lib.body('arg::split')
     if q is None or s is None:
         return
-    enc = q.calls(r'str::<impl str>::replace$')
-    good = bool(enc)
-    if good:
-        e = enc[0]
-        src = backslice(q, [e.args[0]])
-        pat = (''.join(cvals(lib, q, e.args[1])), ''.join(cvals(lib, q, e.args[2])))
-        good = src.has_call(r'arg::to_stfu8$') and pat[0] == "'\\''" and pat[1] == '"\\\\\'"'
-        ctx.check(good, rule, q.path + '|encode', e.where(), "encode: to_stfu8(s).replace(', \\')", 'encoder is not to_stfu8 + replace(\' -> \\\') (patterns %s)' % (pat,))
-    else:
-        ctx.missing(rule, "replace(' -> \\') in quote", q.where())
-    dec = s.calls(r'str::<impl str>::replace$')
+    TRANSFORM = r'str::<impl str>::(replace|replacen|trim\w*|strip_\w+|to_\w*case|to_ascii_\w+)$|String::(retain|remove|pop|truncate|insert\w*|drain|replace_range)$'
+    fm = [c for c in q.calls(r'arg::to_stfu8$')]
+    if not fm:
+        ctx.missing(rule, 'to_stfu8 in quote', q.where())
+    enc_layers = []
+    for e in q.calls(TRANSFORM):
+        if backslice(q, [e.args[0]]).has_call(r'arg::to_stfu8$'):
+            enc_layers.append((e, e.path.rsplit('::', 1)[-1], tuple(''.join(cvals(lib, q, a)) for a in e.args[1:])))
+    want = [('replace', ("'\\''", '"\\\\\'"'))]
+    got = [(n, a) for _, n, a in enc_layers]
+    ctx.check(got == want, rule, q.path + '|encode', (enc_layers[0][0].where() if enc_layers else q.where()), "encode: to_stfu8(s).replace(', \\') and no other text transformation of the encoded body",
+              "the $'...' encoder applies %s to the STFU-8 text; expected exactly replace(' -> \\')" % (got,))
     fs = s.calls(r'arg::from_stfu8$')
-    good = bool(dec and fs)
-    if good:
-        d = dec[0]
-        pat = (''.join(cvals(lib, s, d.args[1])), ''.join(cvals(lib, s, d.args[2])))
-        good = pat[0] == '"\\\\\'"' and pat[1] == '"\'"' and d in backslice(s, [fs[0].args[0]]).calls
-        ctx.check(good, rule, s.path + '|decode', d.where(), "decode: from_stfu8(slice.replace(\\', '))", 'decoder is not replace(\\\' -> \') + from_stfu8 (patterns %s)' % (pat,))
+    if not fs:
+        ctx.missing(rule, 'from_stfu8 in split', s.where())
     else:
-        ctx.missing(rule, 'replace / from_stfu8 in split', s.where())
+        sl = backslice(s, [fs[0].args[0]])
+        dec_layers = [(d, d.path.rsplit('::', 1)[-1], tuple(''.join(cvals(lib, s, a)) for a in d.args[1:])) for d in s.calls(TRANSFORM) if d in sl.calls]
+        # the decoder must undo the encoder's layers in reverse order: replace(a -> b) is undone by replace(b -> a)
+        def norm(v):
+            m = re.match(r"""^(?:'(.*)'|"(.*)")$""", v, re.S)
+            if not m:
+                return v
+            body = m.group(1) if m.group(1) is not None else m.group(2)
+            return re.sub(r"""\\(u\{[0-9a-fA-F]+\}|.)""", lambda k: unesc('\\' + k.group(1)), body, flags=re.S)
+        inv = [(n, (norm(a[1]), norm(a[0]))) for n, a in reversed(got) if len(a) == 2]
+        gotd = [(n, tuple(norm(x) for x in a)) for _, n, a in dec_layers]
+        ctx.check(gotd == inv and got == want, rule, s.path + '|decode', (dec_layers[-1][0].where() if dec_layers else fs[0].where()),
+                  "decode: from_stfu8(slice.replace(\\', ')) - exactly the encoder's layers undone in reverse order (%d layer(s))" % len(gotd),
+                  "the $'...' decoder applies %s before from_stfu8, the encoder's inverse is %s: text that the encoder never produces as an escape (e.g. the `\\\\` + `\"` that STFU-8 writes for a backslash followed by a quote) is rewritten and no longer decodes" % (gotd, inv))
     # join = quote each, separated by a single space; split treats space as delimiter
     j = lib.body('arg::join')
     if j is not None:
